@@ -153,6 +153,10 @@ type nextConn struct {
 	pipe *io.PipeWriter
 }
 
+// NetConn returns the connection that nc reads through, so that its users
+// can reach capabilities of the underlying connection such as half-close.
+func (nc nextConn) NetConn() net.Conn { return nc.Conn }
+
 func (nc nextConn) Read(p []byte) (n int, err error) {
 	n, err = nc.Reader.Read(p)
 	if err == io.EOF {
